@@ -2,7 +2,19 @@
    node.py, exit_node.py, schedules.py and routing/routing.py that the scope of State2.v reaches, with the same order of
    effects.  Places where Python can raise are Err with their own site; the recursion
    accept -> decide_preempt -> preempt -> reroute -> release -> accept / release_blocked_individual -> release is on fuel.
-   Independent of Engine.v (same names, own module). *)
+   Independent of Engine.v (same names, own module).
+
+   Where the model is deliberately coarser than Python (none of these is reachable by the generators; each would show as a
+   K2 mismatch, not pass silently):
+   - a retired server (deleted from node.servers by kill_server) stays alive in Python as an object some customer may still
+     point to; the model keeps only its id in i_server: writes to it are no-ops, and detatch_server of such a server does not
+     look at its offduty flag;
+   - update_next_end_service_with_server collects s.cust even when it is False; the model skips a server without customer;
+   - original_service_time copies service_time, which the model assumes to be a number (not a resume/restart/resample marker)
+     at that point;
+   - join-shortest-queue destinations must be service nodes (the exit node has no number_in_service: AttributeError in Python,
+     E_NoNode here; LoadBalancing over the exit node is E_NoNode too);
+   - arithmetic on float('inf') dates that Python would carry on with (shift_end = inf) is E_Inf. *)
 From Coq Require Import ZArith List Bool Lia.
 From RecordUpdate Require Import RecordUpdate.
 From CiwV Require Import Sx Prelude Routing Sched.
